@@ -24,7 +24,7 @@ SPEC = {
 PHRASES = ['10 usd to try', '$25/hour * 14 hours of work', '3 hours 20 minutes + 50 minutes', '5 march 2020 + 3 weeks', '10:30 EST to CET',
            '15% of 200', '200 + 10%', '5 km to mile', '1 gb to mb', '0xFF to binary', '1664582400 to date', '12/02/2020 as unix',
            'today + 1 week', '20 is what % of 80', '2 days 3 hours as minutes', '€100 + $20', '1k usd / 4', '11:30 pm + 2 hours', 'june 15, 2021 to july 4, 2021']
-NAMES = ['zq', 'wv', 'mk total', 'çay', 'rent xx']
+NAMES = ['zq', 'wv', 'mk total', 'çay', 'rent xx', 'tax-rate']
 
 
 LATE_RULES = [
@@ -84,8 +84,15 @@ def family_texts(rng, sep):
     return out
 
 
+POISON = ['9' * 320 + ' km to m', '1' + '0' * 400 + ' kg to lb', '9' * 310 + ' gb to kb', '9' * 330 + ' usd to eur', '9' * 320 + '% of 5', '9' * 320 + ' hours as minutes',
+          '0 km to m', '5 km / 0 m', '1' + '0' * 400 + ' * 2', '9' * 320 + ' to hex']
+
+
 def stream_text(rng, sep=(',', '.')):
     r = rng.random()
+    if r < 0.03:
+        # an evaluation that fails or overflows inside a conversion, followed by ordinary conversions of the same kinds
+        return [rng.choice(POISON), '1 km to m', '3 km + 500 m', '2 gb to mb', '10 usd to eur']
     if r < 0.12:
         return family_texts(rng, sep)
     r = rng.random()
@@ -110,6 +117,39 @@ def strip(r):
 
 
 MONEY_NAMES = {}        # names holding money in the history being generated -> currency
+
+
+_NAME_ALT = '|'.join(re.escape(n) for n in sorted(NAMES, key=len, reverse=True))
+_RE_SET = re.compile(r'^(%s) = (\d+)$' % _NAME_ALT)
+_RE_DERIVE = re.compile(r'^(%s) = (%s) \+ (\d+)$' % (_NAME_ALT, _NAME_ALT))
+_RE_USE = re.compile(r'^(%s) \* 2 \+ (\d+)$' % _NAME_ALT)
+
+
+def model_lines(env, text):
+    """A tiny model of the three numeric line shapes program_line produces; env: name -> value known to the model.
+    -> [expected number or None] per line of the text (None: not modelled)"""
+    out = []
+    for line in re.split(r'\r\n|\n', text):
+        m = _RE_SET.match(line)
+        if m:
+            env[m.group(1)] = float(m.group(2))
+            out.append(env[m.group(1)])
+            continue
+        m = _RE_DERIVE.match(line)
+        if m:
+            if m.group(2) in env:
+                env[m.group(1)] = env[m.group(2)] + float(m.group(3))
+                out.append(env[m.group(1)])
+            else:
+                env.pop(m.group(1), None)
+                out.append(None)
+            continue
+        m = _RE_USE.match(line)
+        if m and m.group(1) in env:
+            out.append(env[m.group(1)] * 2 + float(m.group(2)))
+            continue
+        out.append(None)
+    return out
 
 
 def program_line(rng, bound, phrases=True):
@@ -274,6 +314,7 @@ def run_shard(ctx):
             for st in sessions.values():
                 st['ref_lang'] = st['lang']
                 st['last'] = None
+                st['env'] = {}
             for sid, st in sessions.items():
                 ops.append({'op': 'session_new', 's': sid})
                 ops.append({'op': 'session_set_language', 's': sid, 'lang': st['lang']})
@@ -312,9 +353,9 @@ def run_shard(ctx):
                 i_sess = len(ops) - 1
                 concat = '\n'.join(st['texts'])
                 ops.append({'op': 'execute', 'c': 3, 'lang': st['ref_lang'], 'text': concat})
-                steps.append((sid, text, i_sess, len(ops) - 1, len(st['texts']), concat))
+                steps.append((sid, text, i_sess, len(ops) - 1, len(st['texts']), concat, model_lines(st['env'], text)))
             rs = drv.run(ops)
-            for sid, text, i_sess, i_ref, kth, concat in steps:
+            for sid, text, i_sess, i_ref, kth, concat, expect in steps:
                 r, ref = rs[i_sess], rs[i_ref]
                 res.cases += 1
                 res.count('session_steps')
@@ -331,6 +372,17 @@ def run_shard(ctx):
                     got = strip(r)
                     if want != got:
                         problem = ('session:values', 'slots %s differ from the last %d slots of the concatenated program %s' % (str(got[2])[:300], n, str(want[2])[:300]))
+                if problem is None:
+                    # the slots against the model of the numeric lines (a re-used session keeps its variables: the latest binding counts)
+                    for k_, want_ in enumerate(expect):
+                        if want_ is None:
+                            continue
+                        slot_ = r['lines'][k_]
+                        res.count('session_lines_judged_against_the_model')
+                        if not (slot_ is not None and slot_.get('v', {}).get('k') == 'number' and mon.fval(slot_) == want_):
+                            problem = ('session:model-value', 'line %d %r of the %d. text should evaluate to %r (bindings made by earlier texts and lines of this session), got %s'
+                                       % (k_, parts[k_], kth, want_, mon.describe(slot_)))
+                            break
                 if problem is None and 'ln' in r and r['ln'] != parts:
                     problem = ('session:lines-evaluated', 'lines started by the evaluation: %r, lines of the text: %r' % (r['ln'], parts))
                 if problem is None:
